@@ -92,8 +92,18 @@ pub fn run(ctx: &mut Ctx) {
     for k in 0..n {
         let ver = VERSIONS[(k % 5) as usize];
         let arb = k % 8 == 7;
-        let root = gen_root(&mut ctx.rng, ver, arb);
-        let desc = format!("{ver:?} materials={} groups={:?} portals={} refs={} vis={:?} lights={} defs={} sets={} textures={}", root.materials.len(), root.groups.iter().map(|g| g.name.clone()).collect::<Vec<_>>(), root.portals.len(), root.portal_references.len(), root.visible_block_lists, root.lights.len(), root.doodad_defs.len(), root.doodad_sets.len(), root.textures.len());
+        let mut root = gen_root(&mut ctx.rng, ver, arb);
+        // one root in four carries stale header counts (lists edited after the header was filled in, as an editor that only
+        // touches the lists leaves it): the written header must describe the lists, not repeat the stale fields
+        let stale = k % 4 == 2;
+        if stale {
+            let r = &mut ctx.rng;
+            root.header.n_materials = r.below(7) as u32; root.header.n_groups = r.below(7) as u32; root.header.n_portals = r.below(7) as u32; root.header.n_lights = r.below(7) as u32;
+            root.header.n_doodad_names = r.below(7) as u32; root.header.n_doodad_defs = r.below(7) as u32; root.header.n_doodad_sets = r.below(7) as u32;
+            ctx.out.stat("c15.root.stale_header_counts");
+        }
+        let desc = format!("{}{ver:?} materials=", if stale { "stale-header-counts " } else { "" });
+        let desc = desc + &format!("{} groups={:?} portals={} refs={} vis={:?} lights={} defs={} sets={} textures={}", root.materials.len(), root.groups.iter().map(|g| g.name.clone()).collect::<Vec<_>>(), root.portals.len(), root.portal_references.len(), root.visible_block_lists, root.lights.len(), root.doodad_defs.len(), root.doodad_sets.len(), root.textures.len());
         ctx.out.stat(&format!("c15.root.{ver:?}"));
         let bytes = match write_root(&root, ver) { Ok(b) => b, Err(e) => { ctx.out.oracle(false, "root-write-fails", &format!("{e} :: {desc}")); continue; } };
         let Some(top) = walk(&bytes, 0, bytes.len()) else { ctx.out.oracle(false, "root-framing-does-not-tile-file", &desc); continue; };
